@@ -14,6 +14,7 @@ import traceback
 VERIF = os.path.dirname(os.path.dirname(os.path.abspath(__file__)))
 OUT = os.environ.get("VERIF_OUT", VERIF)  # evidence/ and replays/ go here (scratch dir for mutant runs)
 PROPS = ["C%02d" % i for i in range(1, 21)]
+MINIMISE_TOTAL_S = 240  # shrinking budget per check run (all violations together)
 
 REAL_COMPONENTS = [
     "every line of /repo/websocket/*.py reached by the workload (imported from the working tree)",
@@ -100,26 +101,31 @@ def _worker_inner(pid, item, seed):
         if r.info.get("abort") in ("step_cap", "time_cap", "deadlock") and not r.violations \
                 and not getattr(mod, "ABORT_OK", False):
             agg["harness_errors"].append("run aborted (%s) without a verdict: %s" % (r.info["abort"], json.dumps(sc)[:600]))
-        for v in r.violations:
-            key = (v["clause"], v["ctx"])
-            size = len(json.dumps(sc)) + 8 * len(r.choices)
-            if key not in agg["violations"] or not agg["violations"][key].get("fresh_ok"):
-                fresh_ok = bool(_still_fails(mod, sc, r.choices, key, fresh=True))
-            else:
-                fresh_ok = None
-            if fresh_ok is False and key in agg["violations"]:
-                agg["violations"][key]["count"] += 1
-                continue
-            old = agg["violations"].get(key)
-            if old is None or size < old["size"]:
-                if old is not None and old.get("fresh_ok") and fresh_ok is None and size >= old["size"]:
+        if r.violations:
+            # Judge the scenario once more on a freshly imported library: state that earlier scenarios left in the
+            # library's modules must not decide what is reported.  What the fresh run shows is what gets reported;
+            # if it shows nothing the original violation is kept as 'seen only with left-over state'.
+            need_fresh = any(not agg["violations"].get((v["clause"], v["ctx"]), {}).get("fresh_ok") for v in r.violations)
+            fresh = None
+            if need_fresh and agg.setdefault("fresh_reruns", 0) < 300:
+                agg["fresh_reruns"] += 1
+                from sim import seams
+                seams.reinstall()
+                try:
+                    fresh = mod.run(sc, choices=r.choices)
+                except Exception:
+                    fresh = None
+            use = fresh if (fresh is not None and fresh.violations) else r
+            fresh_ok = use is fresh
+            size = len(json.dumps(sc)) + 8 * len(use.choices)
+            for v in use.violations:
+                key = (v["clause"], v["ctx"])
+                old = agg["violations"].get(key)
+                if old is None or (fresh_ok and not old.get("fresh_ok")) or (size < old["size"] and fresh_ok >= bool(old.get("fresh_ok"))):
+                    agg["violations"][key] = {"scenario": sc, "choices": use.choices, "violation": v, "size": size, "digest": use.digest,
+                                              "count": (old["count"] + 1 if old else 1), "fresh_ok": fresh_ok}
+                else:
                     old["count"] += 1
-                    continue
-                agg["violations"][key] = {"scenario": sc, "choices": r.choices, "violation": v, "size": size,
-                                          "digest": r.digest, "count": (old["count"] + 1 if old else 1),
-                                          "fresh_ok": bool(fresh_ok) if fresh_ok is not None else bool(_still_fails(mod, sc, r.choices, key, fresh=True))}
-            else:
-                old["count"] += 1
     agg["wall"] = time.time() - t0
     agg["sigs"] = list(agg["sigs"])
     agg["scheds"] = list(agg["scheds"])
@@ -348,6 +354,8 @@ def run_check(pid, tier, seed, jobs=None, budget_scale=1.0):
         return 2
     wall = time.time() - t0
     if os.environ.get("VERIF_DEBUG"):
+        print(f"  [debug] search phase took {wall:.1f}s")
+    if os.environ.get("VERIF_DEBUG"):
         for x in sorted(slow, reverse=True)[:8]:
             print("  slowest item:", x)
     known = load_known()
@@ -355,6 +363,7 @@ def run_check(pid, tier, seed, jobs=None, budget_scale=1.0):
     known_seen = []
     new_violations = 0
     not_replayed = []
+    t_report0 = time.time()
     for key in sorted(total["violations"]):
         v = total["violations"][key]
         viol = v["violation"]
@@ -367,10 +376,15 @@ def run_check(pid, tier, seed, jobs=None, budget_scale=1.0):
             continue
         new_violations += 1
         sc, ch = v["scenario"], v["choices"]
+        tmin = time.time()
+        # the time spent on shrinking is bounded for the whole check, not only per violation
+        left = max(5.0, MINIMISE_TOTAL_S - (time.time() - t_report0))
         try:
-            sc2, ch2, nruns = minimise(mod, sc, ch, key)
+            sc2, ch2, nruns = minimise(mod, sc, ch, key, wall=min(60, left), budget=250 if left > 10 else 25)
         except Exception:
             sc2, ch2, nruns = sc, ch, 0
+        if os.environ.get("VERIF_DEBUG"):
+            print(f"  [debug] minimise {key} took {time.time() - tmin:.1f}s ({nruns} candidates)")
         chk = _still_fails(mod, sc2, ch2, key, fresh=True)
         if not chk and _still_fails(mod, sc, ch, key, fresh=True):
             sc2, ch2 = sc, ch  # the minimised form depended on state left by earlier runs: keep the original
